@@ -903,14 +903,11 @@ def get_principal_component_matrix(A: np.ndarray,
     # Note 'S' as returned by np.linalg.svd contains the singular values in
     # descending order. Therefore, we only need to keep the first
     # 'num_components' singular values (and vectors).
-    [U, S, V_H] = np.linalg.svd(A)
-    num_rows = U.shape[0]
-    num_cols = V_H.shape[1]
-    newS = np.zeros(num_rows, dtype=A.dtype)
-    newS[:num_components] = S[:num_components]
-    newS = np.diag(newS)[:, :num_cols]
-
-    out = np.dot(U, np.dot(newS, V_H[:, :num_components]))
+    # (Only the `num_components` dominant singular triplets are used, which
+    # also works when `A` has more columns than rows.)
+    [U, S, V_H] = np.linalg.svd(A, full_matrices=False)
+    out = np.dot(U[:, :num_components] * S[:num_components],
+                 V_H[:num_components, :num_components])
 
     return out
 
